@@ -13,15 +13,16 @@ DEMO_PATH=$(python3 -c "import json;print(json.load(open('$SD/meta.json')).get('
 DEMO_CMD=$(python3 -c "import json;print(json.load(open('$SD/meta.json')).get('demo_cmd',''))")
 echo "== seed $SD  demo_path=$DEMO_PATH demo_cmd=$DEMO_CMD"
 if [ "${SKIP_DEMO:-0}" != 1 ]; then
-  # place demo files
+  # place demo files: files directly under demo/ go to dirname(demo_path) (or demo_path if it is a directory);
+  # a single sub-directory under demo/ holds the files of the demo package
   if [ -d "$SD/demo" ]; then
-    if [ -n "$DEMO_PATH" ] && [ "$(ls $SD/demo | wc -l)" = 1 ] && [[ "$DEMO_PATH" == *.go ]]; then
-      mkdir -p $W/$(dirname $DEMO_PATH); cp $SD/demo/* $W/$DEMO_PATH
-    else
-      d=$DEMO_PATH; [[ "$d" == *.go ]] && d=$(dirname $d)
-      mkdir -p $W/$d; cp -r $SD/demo/* $W/$d/
-    fi
+    d=$DEMO_PATH; [[ "$d" == *.go ]] && d=$(dirname $d)
+    [ -z "$d" ] && d=seeddemo
+    mkdir -p $W/$d
+    find $SD/demo -type f | while read f; do cp "$f" $W/$d/; done
   fi
+  # demo commands written for the author's worktree: point them at this scratch worktree
+  DEMO_CMD=$(echo "$DEMO_CMD" | sed -E "s#/tmp/seed2?/C[0-9]+#$W#g; s#   \(.*\$##; s#GOCACHE=[^ ]+ ##")
   (cd $W && timeout 900 bash -c "$DEMO_CMD" >/tmp/st/demo_clean.$$ 2>&1); r0=$?
   echo "demo WITHOUT patch: exit $r0 (want 0)"; [ $r0 != 0 ] && tail -15 /tmp/st/demo_clean.$$
 fi
